@@ -1447,9 +1447,15 @@ func (e *Entry) Find(name string) *Entry {
 	// and we need to find our parent.
 	if parts[0] == "" {
 		parts = parts[1:]
+		// The prefixes of the path are those of the file the start node was
+		// written in. An input or output that Find created on demand was
+		// written nowhere; its rpc or action stands in for it.
 		contextNode := e.Node
 		for e.Parent != nil {
 			e = e.Parent
+			if contextNode == nil {
+				contextNode = e.Node
+			}
 		}
 		if prefix, _ := getPrefix(parts[0]); prefix != "" {
 			mod := FindModuleByPrefix(contextNode, prefix)
